@@ -56,6 +56,13 @@ def main():
         if rc != 0:
             res["demo_unmodified_output"] = out[-1500:]
     rc, out = sh(["git", "-C", WT, "apply", os.path.join(d, "patch.diff")])
+    if rc != 0:
+        # the tree moved on since the seed was written (fix: commits): a conflict-free 3-way apply is accepted
+        rc, out3 = sh(["git", "-C", WT, "apply", "--3way", os.path.join(d, "patch.diff")])
+        res["applied_3way"] = rc == 0
+        if rc != 0:
+            sh(["git", "-C", WT, "reset", "-q", "--hard"])
+            out += out3
     res["patch_applies"] = rc == 0
     if rc != 0:
         res["apply_output"] = out[-800:]
@@ -105,7 +112,7 @@ def main():
         rp = [l.split("replay=")[1].split()[0] for l in res["check_violation_lines"] if "replay=" in l]
         if rp and os.path.exists(rp[0]):
             res["first_replay"] = json.load(open(rp[0]))
-    sh(["git", "-C", WT, "checkout", "--", "."])
+    sh(["git", "-C", WT, "reset", "-q", "--hard"])
     # point the harness back at /repo (rebuilds bio from /repo)
     sh([os.path.join(ROOT, "check"), prop, "--replay", "/dev/null"], cwd=ROOT, env=dict(os.environ, VERIF_REPO="/repo"))
     json.dump(res, open(os.path.join(d, "result.json"), "w"), indent=1)
